@@ -6,14 +6,16 @@ Import ListNotations.
 Open Scope N_scope.
 
 Definition same_event (e : sse_event) (m : bytes) : Prop :=
-  ev_type e = [] /\ normalise (ev_data e) = normalise m.
+  ev_type e = [] /\ ev_id e = [] /\ ev_retry e = None /\ normalise (ev_data e) = normalise m.
 
 Lemma events_match_sound : forall evs ref, events_match evs ref = true -> Forall2 same_event evs ref.
 Proof.
   induction evs as [|e evs IH]; destruct ref as [|m ref]; cbn [events_match]; intros H;
     try discriminate; constructor.
-  - apply andb_true_iff in H. destruct H as [H _]. apply andb_true_iff in H. destruct H as [A B].
-    split; now apply bytes_eqb_iff.
+  - apply andb_true_iff in H. destruct H as [H _].
+    repeat (apply andb_true_iff in H; destruct H as [H ?]).
+    unfold same_event. destruct (ev_retry e); [discriminate|].
+    split; [now apply bytes_eqb_iff|]. split; [now apply bytes_eqb_iff|]. split; [reflexivity|now apply bytes_eqb_iff].
   - apply IH. apply andb_true_iff in H. now destruct H.
 Qed.
 
@@ -38,7 +40,7 @@ Proof.
   intros [body | body ref | body ref | body ref] H; cbn [oracle] in H.
   - destruct (sse_parse body) as [|e [|e2 l]]; try discriminate.
     exists e. split; [reflexivity|].
-    apply andb_true_iff in H. destruct H as [H _]. apply andb_true_iff in H. destruct H as [H _].
+    repeat (apply andb_true_iff in H; destruct H as [H ?]).
     now apply bytes_eqb_iff.
   - now apply events_match_sound.
   - now apply list_bytes_eqb_sound.
@@ -48,10 +50,10 @@ Qed.
 
 Lemma events_match_refl : forall ref,
   Forall (fun m => json_clean m = true) ref ->
-  events_match (map (fun m => mkEv [] (strip_cr m)) ref) ref = true.
+  events_match (map (fun m => mkEv [] (strip_cr m) [] None) ref) ref = true.
 Proof.
   induction 1 as [|m ref Hm _ IH]; [reflexivity|].
-  cbn [map events_match ev_type ev_data]. rewrite (strip_cr_same_json m Hm), IH. cbn [bytes_eqb]. now rewrite bytes_eqb_same.
+  cbn [map events_match ev_type ev_data ev_id ev_retry]. rewrite (strip_cr_same_json m Hm), IH. cbn [bytes_eqb]. now rewrite bytes_eqb_same.
 Qed.
 
 (* for every list of queued messages (JSON texts without raw LF, which is what the
